@@ -129,6 +129,10 @@ def entries():
     add = lambda *a, **k: E.append(Entry(*a, **k))
     # constructors -------------------------------------------------------------------------
     add("polynomial(poly)", lambda r: [P(r)], lambda a: numpoly.polynomial(a), "construct")
+    add("polynomial(dict, names='q')", lambda r: [int(r.integers(1, 4))],
+        lambda k: numpoly.polynomial({(0,): 1, (2,): k}, names="q"), "construct", raises_ok=(AssertionError,))
+    add("polynomial(dict, names='q') two indeterminates", lambda r: [int(r.integers(1, 4))],
+        lambda k: numpoly.polynomial({(0, 1): 1, (2, 0): k}, names="q"), "construct")
     add("polynomial_from_roots", lambda r: [[int(x) for x in r.integers(-3, 4, size=int(r.integers(1, 5)))]],
         lambda roots: numpoly.polynomial_from_roots(roots), "construct")
     add("polynomial_from_roots(float)", lambda r: [[float(x) / 2 for x in r.integers(-4, 5, size=int(r.integers(1, 4)))]],
